@@ -427,12 +427,21 @@ def r7_writer_state_per_instance(ctx):
         raise AnalysisError('shared-state audit reached only %d objects of the XML modules' % n)
 
 
+def r8_isa_carries_writer_delimiters(ctx):
+    """the X12 written back from XML uses the writer's own delimiters for every composite; the ISA it writes must announce
+    exactly those (ISA16, ISA11) whatever the version of the interchange: C11.R4 (shared)"""
+    from . import c11
+    for o in c11.r4_isa_delims(ctx):
+        yield o
+
+
 RULES = [
     Rule('C08.R1', 'XML vocabulary agreement writer<->reader; every element id designates its own position', r1_vocabulary, floor=11000),
     Rule('C08.R2', 'content/attribute escaping: & first, <, quote char; every value passes its escape', r2_escaping, floor=9),
     Rule('C08.R3', 'segment/composite push-pop balance (post-dominance)', r3_balance, floor=4),
     Rule('C08.R4', 'same emptiness predicate on both sides; every <seg> converted in order', r4_empty_agreement, floor=3),
     Rule('C08.R5', 'loop nesting is derived from the matched node at every call; no other state between segments', r5_nesting_from_current_node, floor=3),
+    Rule('C08.R8', 'shared with C11.R4: the ISA written back carries the writer\'s separators', r8_isa_carries_writer_delimiters, floor=1),
     Rule('C08.R7', 'shared with C18.R2: XML writer state is per instance (no mutated class/module-level object)', r7_writer_state_per_instance, floor=3),
     Rule('C08.R6', 'DOCTYPE precedes the root element; the root is always opened', r6_prolog_order, floor=2),
 ]
